@@ -32,6 +32,12 @@ Theorem c12_success_keeps_tree : forall (f : fs) (ops : list op) (g : fs) (c : l
 Proof. exact apply_ops_wf. Qed.
 Print Assumptions c12_success_keeps_tree.
 
+(* fs_wf is decidable; check_case evaluates wf_fsb on the workspace listing before and after every
+   implementation run, so the hypothesis of c12_atomic is checked on every observed workspace *)
+Theorem c12_wf_decidable_sound : forall (f : fs), wf_fsb f = true -> fs_wf f.
+Proof. exact wf_fsb_sound. Qed.
+Print Assumptions c12_wf_decidable_sound.
+
 (* the hypotheses are satisfiable by a failing run that has already mutated the workspace *)
 Example c12_atomic_nonvacuous : fs_wf wit_fs /\ apply_patch true [] wit_fs wit_patch = Failed wit_fs ENOENT.
 Proof. exact (conj (wf_single _ _) wit_fixed_run). Qed.
